@@ -32,6 +32,10 @@ CLAIMED = {
   "text": "Bounded symbolic model checking of the real AccountDB journal: for every mutator (15 kinds x 3 accounts x slots/amounts, symbolic value byte), one and two levels of Snapshot/Revert, from a committed state reopened cold and optionally dirtied, all observers answer as at the snapshot and the state root equals that of a twin on which the reverted operations never ran.",
   "note": "Trusted: gosym and its models, z3. Four instances of one genuine defect are listed as known findings (Empty() not restored after reverting a storage write on an account without cached storage). Histories of at most three mutators.",
  },
+ "C16": {
+  "text": "Bounded symbolic model checking of the parts of the VRF path that are integer/byte computations: (a) header transport - for every 80-byte proof, the big-integer prove value (leading zeros dropped) padded back by the real tryZeroPadding copies is the original proof, and padding never panics for any length; (b) qualification - through the real validateProve/calQn (big.Rat + float64 modelled as reals with an interval rounding model), for every 256-bit lottery value and each enumerated stake/working/height combination there is no panic and an accepted proof has 1 <= qn <= MaxQN.",
+  "note": "Trusted: gosym and its models, z3, interval model of float64 rounding. The elliptic-curve clauses of the property (completeness, mutation soundness, unique lottery output) are NOT decided: edwards25519 arithmetic and SHA-512 on symbolic input are outside the encoding's reach. One genuine defect found and fixed (qn = MaxQN+1 for lottery values in the top sliver).",
+ },
  "C19": {
   "text": "Bounded symbolic model checking of the real groupChain (AddGroup/save/remove/lookups and the restart loading sequence) over an in-memory store: for every history of up to 3 (thorough 5) add / bad-add / duplicate / remove-last / restart operations the last group is linked to genesis, Count equals the list length, the height index returns exactly the listed groups and nothing at or above the count, and every group is retrievable by id.",
   "note": "Trusted: gosym and its models (encoding/json by contract), z3. Mid-operation crash points are outside (the property quantifies restarts after operations).",
